@@ -246,6 +246,71 @@ fn a64_entry(acc: &mut Acc, rng: &mut Rng, rounds: usize) {
     }
 }
 
+
+/// (e) the value handed to the print primitives is the printed variable's value wherever that
+/// variable lives: L live variables of mixed kinds (register / spill placements, odd and even
+/// numbers of saved registers), boundary values, on the x86-64 and AArch64 emulators
+fn print_placement(acc: &mut Acc, rng: &mut Rng, ctx: &Ctx) {
+    use super::backend::{codegen, emulate, Isa};
+    let mut idx = 0usize;
+    for l in 0..=23usize {
+        for kinds in 0..4usize {
+            let mut ps = vec![0usize, l / 2, l.saturating_sub(2), l.saturating_sub(1)];
+            ps.dedup();
+            for printed in ps {
+                idx += 1;
+                if idx % ctx.nshards != ctx.shard {
+                    continue;
+                }
+                let src = super::directed13::program(l, kinds, printed, 1);
+                let Ok(st) = stages(&src) else {
+                    acc.infra(format!("C20 print-placement program does not compile (l={l} kinds={kinds})"));
+                    continue;
+                };
+                let args = vec![pool(rng)];
+                let (reference, _) = crate::sem_axcut::run(&st.linear, &args, crate::sem_axcut::Mode::Positional, &Default::default());
+                if !reference.defined() {
+                    acc.discard("print placement: reference undefined");
+                    continue;
+                }
+                for isa in [Isa::X86, Isa::A64] {
+                    let Ok(asm) = codegen(isa, st.linear.clone()) else {
+                        acc.discard("print placement: capacity limit of the backend");
+                        continue;
+                    };
+                    let r = match emulate(isa, &asm.text, &args, &EmuConfig::default()) {
+                        Ok(r) => r,
+                        Err(e) => {
+                            acc.infra(format!("print placement: emulator cannot parse: {e}"));
+                            continue;
+                        }
+                    };
+                    acc.evaluations += 1;
+                    acc.count(&format!("print_placement_runs_{}", isa.name()));
+                    if r.violation.is_some() || r.outcome.end.is_err() {
+                        // sanitizer events belong to C06/C07/C09/C13
+                        acc.count("print_placement_runs_ended_by_other_monitors");
+                        continue;
+                    }
+                    let want: Vec<i64> = reference.prints.iter().map(|p| p.value).collect();
+                    let got: Vec<i64> = r.outcome.prints.iter().map(|p| p.value).collect();
+                    let nl_w: Vec<bool> = reference.prints.iter().map(|p| p.newline).collect();
+                    let nl_g: Vec<bool> = r.outcome.prints.iter().map(|p| p.newline).collect();
+                    if want != got || nl_w != nl_g {
+                        acc.violation(
+                            format!("C20:print-placement:{}", isa.name()),
+                            format!("{}: print with {l} live variables (kinds {kinds}, printed variable {printed}), argument {}: the print primitives receive {got:?}, the program prints {want:?}", isa.name(), args[0]),
+                            J::obj().with("kind", J::s("print-placement")).with("src", J::s(src.clone())).with("args", args_json(&args)).with("isa", J::s(isa.name())),
+                        );
+                    } else {
+                        acc.nontrivial(crate::rng::hash_str(&format!("pp:{l}:{kinds}:{printed}:{}", isa.name())));
+                    }
+                }
+            }
+        }
+    }
+}
+
 pub fn run(ctx: &Ctx, acc: &mut Acc) {
     let mut wd = Workdir::new(&format!("c20-{}", ctx.shard));
     let mut rng = Rng::new(ctx.case_seed(0));
@@ -254,6 +319,7 @@ pub fn run(ctx: &Ctx, acc: &mut Acc) {
         io_sanitized(acc, &mut wd, &mut rng, if ctx.quick() { 3 } else { 20 });
         native_args(acc, &mut wd, &mut rng, if ctx.quick() { 6 } else { 40 });
         a64_entry(acc, &mut rng, if ctx.quick() { 10 } else { 100 });
+        print_placement(acc, &mut rng, ctx);
         round += 1;
         if !acc.violations.is_empty() {
             break;
@@ -270,4 +336,6 @@ pub fn replay(payload: &J, acc: &mut Acc) {
     io_sanitized(acc, &mut wd, &mut rng, 5);
     native_args(acc, &mut wd, &mut rng, 10);
     a64_entry(acc, &mut rng, 10);
+    let ctx = Ctx { prop: "C20".into(), tier: super::Tier::Quick, seed: 1, shard: 0, nshards: 1, budget: Duration::from_secs(600), start: std::time::Instant::now() };
+    print_placement(acc, &mut rng, &ctx);
 }
